@@ -118,7 +118,10 @@ class address(FieldType):
         self.val = addr_long(addr)
 
     def __eq__(self, b):
-        return addr_long(self) == addr_long(b)
+        try:
+            return addr_long(self) == addr_long(b)
+        except (TypeError, OSError, struct.error):
+            return False
 
     def __str__(self):
         return addr_str(self.val)
